@@ -286,6 +286,52 @@ pub fn run_c03(w: &mut W) {
             j += 1;
         }
     }
+    // announced count x records present (an exhaustive sub-space): every count from a list of
+    // interesting 16-bit values (small numbers, their byte-swapped forms k<<8, values around 255/256,
+    // powers of two, 65535) over bodies of exactly 0..=40 complete records, also one byte short and
+    // one byte long. Fewer records than announced must be an error; never a shorter valid packet.
+    for version in [5u16, 7] {
+        if w.oneoff(j) {
+            let mut rng = w.begin_case(crate::worker::ONEOFF + j, "count-x-records-present");
+            let rl = if version == 5 { 48usize } else { 52 };
+            let mut counts: Vec<usize> = (1..=48).collect();
+            counts.extend((1..=48).map(|k| k << 8));
+            counts.extend((1..=48).map(|k| (k << 8) | k));
+            counts.extend_from_slice(&[254, 255, 257, 511, 513, 1023, 1024, 1365, 4095, 4096, 8192, 16384, 32767, 32768, 32769, 65534, 65535]);
+            counts.sort();
+            counts.dedup();
+            let body = rng.bytes(rl * 41 + 1);
+            let mut cases = 0u64;
+            'outer: for c in &counts {
+                for present in 0..=40usize {
+                    for delta in [-1i64, 0, 1] {
+                        let blen = (present * rl) as i64 + delta;
+                        if blen < 0 || (blen as usize) >= c * rl {
+                            continue; // complete packets are the count sweep's business
+                        }
+                        let mut buf = vec![0u8; 24];
+                        buf[0..2].copy_from_slice(&version.to_be_bytes());
+                        buf[2..4].copy_from_slice(&(*c as u16).to_be_bytes());
+                        buf[4..24].copy_from_slice(&body[..20]);
+                        buf.extend_from_slice(&body[..blen as usize]);
+                        let mut p = netflow_parser::NetflowParser::default();
+                        let r = p.parse_bytes(&buf);
+                        cases += 1;
+                        if !(r.len() == 1 && r[0].is_error()) {
+                            let d = div(&format!("v{}/short-body", version), "accepted", format!("count {} announced, {} bytes of records present ({} complete records): returned {:?}", c, blen, present, r.iter().map(crate::observe::kind).collect::<Vec<_>>()));
+                            let mut sut = Sut::new(1);
+                            sut.parse(0, &buf);
+                            w.rep.violation(sig("C03", &d), &d, sut.replay_json());
+                            break 'outer;
+                        }
+                    }
+                }
+            }
+            w.rep.count("count_x_records_present_cases", cases);
+            w.rep.count("fields_compared", cases);
+        }
+        j += 1;
+    }
     // every one of the 256 protocol numbers, in both versions, in every run
     for version in [5u16, 7] {
         if w.oneoff(j) {
